@@ -74,6 +74,48 @@ Example C16_roundtrip_paths_nonvacuous :
              (combine (a_modules A_twin) tops) = true).
 Proof. exact roundtrip_paths_ex. Qed.
 
+(* Re-exports with renames.  Module m of A makes entity t of module ms accessible again under the name
+   [local] (alias node a of m; `use ms, only: local => t` in a module whose default accessibility is
+   public).  The description keeps [local] as the key and t - own name, own URLs - as the value
+   (C16_pub_table), the import keeps the key, and B's `use m, only: local` gets the object of t: its own
+   name, base/url_of_A(t) on ms's side, and the right URL at every path below it.  For all A, bases, m,
+   ms, t - in particular when another entity reachable through m has the same own name as t. *)
+Theorem C16_roundtrip_reexport : forall A b v locals m ms mid local pa t r w,
+  let a := Ent mid KAlias local pa (t :: r) in
+  wf_A A -> base_ok b ->
+  In m (a_modules A) -> In a (e_kids m) -> accessible a = true ->
+  shown (c_display (a_cfg A)) t = true -> pub_class (e_kind t) = Some w ->
+  lower_in (e_name m) locals = false ->
+  In ms (a_modules A) -> e_id ms = mid -> In t (e_kids ms) -> tree_names_ok t ->
+  exists tops xm x u,
+    load_json b (export A v) = Ok tops /\
+    find_used_module locals tops (e_name m) = Ok (Some (HExt xm)) /\
+    used_lookup xm w local = Ok (Some x) /\
+    x_name x = JStr (e_name t) /\
+    kid_url (ident_of A) ms t = Some u /\ x_url x = JStr (spec_join b u) /\
+    path_ok (ident_of A) b (Some KModule) (module_url (ident_of A) ms) t x = true.
+Proof. exact roundtrip_reexport. Qed.
+Print Assumptions C16_roundtrip_reexport.
+
+(* non-vacuity and the scenario itself: v1_mod and v2_mod both have a type grid_t; api_mod makes v2_mod's
+   accessible as grid_t, v1_mod's as grid_legacy_t, v2_mod's make_grid as new_grid *)
+Example C16_roundtrip_reexport_nonvacuous :
+  wf_A A_facade /\ Forall (fun m => aliases_legal m) (a_modules A_facade) /\
+  jkeys (jget (s "pub_types") (nth 2 (jlist (jget (s "modules") (export A_facade []))) JNull))
+    = [s "grid_t"; s "grid_legacy_t"] /\
+  (exists tops xm xa xb xc,
+     load_json (BLocal (s "/srv/a/doc")) (export A_facade []) = Ok tops /\
+     find_used_module [] tops (s "api_mod") = Ok (Some (HExt xm)) /\
+     used_lookup xm (s "pub_types") (s "grid_t") = Ok (Some xa) /\
+     used_lookup xm (s "pub_types") (s "grid_legacy_t") = Ok (Some xb) /\
+     used_lookup xm (s "pub_procs") (s "new_grid") = Ok (Some xc) /\
+     x_name xb = JStr (s "grid_t") /\ x_name xc = JStr (s "make_grid") /\
+     x_url xa = JStr (s "/srv/a/doc/type/grid_t~2.html") /\
+     x_url xb = JStr (s "/srv/a/doc/type/grid_t.html") /\
+     x_url xc = JStr (s "/srv/a/doc/proc/make_grid.html") /\
+     used_lookup xm (s "pub_procs") (s "make_grid") = Ok None).
+Proof. exact reexport_ex. Qed.
+
 (* the whole imported structure: every exported entity, nested ones included, becomes the
    External* object of its class with its URL re-based (for every entity tree and every fuel that
    covers the JSON) *)
@@ -98,17 +140,27 @@ Proof. exact target_unique. Qed.
 Print Assumptions C16_target_unique.
 
 (* "and that page is written by A" (full statement; the dead-link half of the former finding
-   export-follows-display is repaired): for every A, every module m and every entity e that one of
-   m's tables of public names holds in the description - [class_members] is exactly the content of that
-   table, C16_pub_table - the page of e's URL is among the pages A writes.  Hypothesis: no '#' in the
-   two idents (Fortran names have none). *)
+   export-follows-display is repaired): for every A and every module m, whatever one of m's tables of
+   public names holds in the description - [class_members] is exactly the content of that table,
+   C16_pub_table - has its page among the pages A writes: m's own entities e ... *)
 Theorem C16_exported_target_written : forall A m e w u,
-  In m (a_modules A) -> e_kind m = KModule -> In e (class_members (a_cfg A) m w) ->
+  In m (a_modules A) -> e_kind m = KModule -> alias_target e = None -> In e (class_members (a_cfg A) m w) ->
   no_hash (ident_of A (e_id m)) = true -> no_hash (ident_of A (e_id e)) = true ->
   kid_url (ident_of A) m e = Some u ->
   In (page_of u) (pages_written A).
 Proof. exact exported_target_written. Qed.
 Print Assumptions C16_exported_target_written.
+
+(* ... and the entities t of other modules ms that m makes accessible again (alias node a).
+   Hypothesis: no '#' in the two idents (Fortran names have none). *)
+Theorem C16_reexported_target_written : forall A m a t ms w u,
+  alias_target a = Some t -> In a (class_members (a_cfg A) m w) ->
+  In ms (a_modules A) -> e_kind ms = KModule -> In t (e_kids ms) ->
+  no_hash (ident_of A (e_id ms)) = true -> no_hash (ident_of A (e_id t)) = true ->
+  kid_url (ident_of A) ms t = Some u ->
+  In (page_of u) (pages_written A).
+Proof. exact reexported_target_written. Qed.
+Print Assumptions C16_reexported_target_written.
 
 Theorem C16_pub_table : forall idf cfg id name p kids w,
   jkeys (jget w (export_ent idf cfg None None true (Ent id KModule name p kids)))
@@ -117,10 +169,12 @@ Theorem C16_pub_table : forall idf cfg id name p kids w,
 Proof. exact pub_table_is_class_members. Qed.
 Print Assumptions C16_pub_table.
 
-(* an entity that A does not display is not in the description: what B holds for module m (xlate m,
-   C16_import_export) has no object of that name, so B shows the name without a link *)
+(* a name that no documented accessible entity of the table carries - own or re-exported: in particular
+   the own name of an entity that the module re-exports under another name, and the name of an entity A
+   does not display - is not in what B holds for module m (xlate m, C16_import_export): B shows the name
+   without a link *)
 Theorem C16_undisplayed_not_exported : forall idf cfg b id name p kids w n,
-  (forall e, In e kids -> lower (e_name e) = lower n -> shown (c_display cfg) e = false) ->
+  (forall c, In c (class_members cfg (Ent id KModule name p kids) w) -> lower (e_name c) <> lower n) ->
   In w PUB_DICTS ->
   used_lookup (xlate idf cfg b None None true (Ent id KModule name p kids)) w n = Ok None.
 Proof. exact used_lookup_undisplayed. Qed.
@@ -128,27 +182,28 @@ Print Assumptions C16_undisplayed_not_exported.
 
 (* ---------------------------------------------------------------- the exported description *)
 
+(* aliases_legal: the entity behind a re-exported name is accessible in its own module *)
 Definition C16_export_exact_statement : Prop :=
-  forall A v, Forall (fun m => e_kind m = KModule) (a_modules A) ->
+  forall A v, Forall (fun m => e_kind m = KModule /\ aliases_legal m) (a_modules A) ->
               exact_on (a_modules A) (export A v) = true.
 Theorem C16_export_exact_partial : forall A v,
-  Forall (fun m => e_kind m = KModule) (a_modules A) ->
+  Forall (fun m => e_kind m = KModule /\ aliases_legal m) (a_modules A) ->
   display_default (c_display (a_cfg A)) = true ->
   exact_on (a_modules A) (export A v) = true.
 Proof. exact export_exact_partial. Qed.
 Print Assumptions C16_export_exact_partial.
 Theorem C16_export_exact_refuted_private_listed : ~ C16_export_exact_statement.
 Proof.
-  intros H. destruct export_exact_refuted_private_listed as (K & _ & E).
-  rewrite (H A_private_listed [] K) in E. discriminate.
+  intros H. destruct export_exact_refuted_private_listed as (_ & _ & E).
+  rewrite (H A_private_listed [] (proj1 witnesses_legal)) in E. discriminate.
 Qed.
 Print Assumptions C16_export_exact_refuted_private_listed.
 Theorem C16_export_exact_refuted_public_unlisted :
   exists A, display_default (c_display (a_cfg A)) = false /\
-            Forall (fun m => e_kind m = KModule) (a_modules A) /\
+            Forall (fun m => e_kind m = KModule /\ aliases_legal m) (a_modules A) /\
             exact_on (a_modules A) (export A []) = false.
 Proof.
-  exists A_private_only. split; [reflexivity|]. split; [repeat constructor|].
+  exists A_private_only. split; [reflexivity|]. split; [exact (proj2 witnesses_legal)|].
   exact export_exact_refuted_public_unlisted.
 Qed.
 Print Assumptions C16_export_exact_refuted_public_unlisted.
